@@ -86,9 +86,11 @@ type Result struct {
 	WallMs   int64            `json:"wall_ms"`
 }
 
+// a scripted boundary event must show up within this (else: unsteered)
+var stepWait = 1500 * time.Millisecond
+
 const (
-	stepWait    = 1500 * time.Millisecond // a scripted boundary event must show up within this (else: unsteered)
-	hangWait    = 12 * time.Second        // a call that has everything it needs must return within this
+	hangWait    = 12 * time.Second // a call that has everything it needs must return within this
 	leakWait    = 6 * time.Second
 	patientWait = 6 * time.Second // a woken call (cancel / Close) must return within this without help
 	postCall    = 6               // id of the call started after transport Close ("later calls fail immediately")
@@ -277,7 +279,8 @@ func transportGoroutines() map[string][]string {
 		}
 		id := strings.Fields(lines[0])[1]
 		for _, line := range lines[1:] {
-			if i := strings.Index(line, "mosdns/v5/pkg/upstream/transport."); i >= 0 && !strings.HasPrefix(line, "\t") {
+			if i := strings.Index(line, "mosdns/v5/pkg/upstream/transport."); i >= 0 && !strings.HasPrefix(line, "\t") &&
+				!strings.HasPrefix(line, "created by") {
 				f := line[i+len("mosdns/v5/pkg/upstream/"):]
 				if j := strings.LastIndex(f, "("); j > 0 {
 					f = f[:j]
@@ -336,9 +339,9 @@ func main() {
 	if job.MaxBad == 0 {
 		job.MaxBad = 12
 	}
-	bad := 0
+	bad, hangs := 0, 0
 	for i, sc := range job.Scripts {
-		if bad >= job.MaxBad && bad*5 > i*2 {
+		if (bad >= job.MaxBad && bad*5 > i*2) || hangs >= 6 { // enough evidence: the rest is skipped
 			vh.Emit(Result{Idx: i, Name: sc.Name, Skipped: true})
 			continue
 		}
@@ -369,6 +372,9 @@ func main() {
 		res.WallMs = time.Since(t0).Milliseconds()
 		if !res.Steered || len(res.Hang) > 0 {
 			bad++
+		}
+		if len(res.Hang) > 0 {
+			hangs++
 		}
 		vh.Emit(res)
 		vh.Flush()
